@@ -39,7 +39,50 @@ class SedHooks(Hooks):
         return NotImplemented
 
 
+def plot_anchors(repo):
+    """is plot() written the way the syntactic rules below expect? (they read the function as text: when it is laid out differently they cannot tell a
+    defect from a different spelling, and are then only allowed to say undecided)"""
+    plot = repo.func('plot', 'plot')
+    loops = [n for n in walk_local(plot.node) if isinstance(n, ast.For) and isinstance(n.target, ast.Name) and isinstance(n.iter, ast.Call) and chain(n.iter.func) == 'range' and 'n_fits' in up(n.iter)]
+    if len(loops) != 1:
+        return False, 'no single loop over the fits'
+    lp = loops[0]
+    i = lp.target.id
+    tests = {up(n_.test).replace(' ', '').replace('"', "'") for n_ in walk_local(lp) if isinstance(n_, ast.If)}
+    missing = [m for m in MODES if "sed_type=='%s'" % m not in tests]
+    if missing:
+        return False, 'display modes %s are not dispatched by sed_type == ... inside the fit loop' % missing
+    sa = [c for c in calls(lp) if isinstance(c.func, ast.Attribute) and c.func.attr == 'scale_to_av']
+    if len(sa) != 1 or len(sa[0].args) != 2 or isinstance(sa[0].args[0], ast.Name) or isinstance(sa[0].args[1], ast.Name):
+        return False, 'the reddening call is not one scale_to_av(a, b) with its arguments written in place inside the loop'
+    gs = [c for c in calls(lp) if isinstance(c.func, ast.Attribute) and c.func.attr == 'get_sed']
+    rd = [c for c in calls(lp) if (chain(c.func) or '').endswith('SED.read')]
+    if not gs or not rd:
+        return False, 'the SED is not fetched by get_sed / SED.read inside the loop'
+    return True, ''
+
+
 def run(ctx):
+    from ..roundtrip import SuspectCtx
+    repo = ctx.repo
+    trusted, why = plot_anchors(repo)
+    pctx = ctx if trusted else SuspectCtx(ctx, 'plot() is laid out differently from what this rule reads (%s); the rule' % why)
+    try:
+        plot_rules(pctx)
+    except AnalysisError as e:
+        ctx.undecided('PERM-8', 'plot() structure', 'sedfitter/plot.py', 'structure not recognised: %s' % e)
+    common.check_ownership(ctx, only=('plot',))
+    # the stored extinction law survives the fit file unchanged, and get_av is the normalised law (results passed as a file)
+    from . import c14, c13
+    c14.check_state(ctx)
+    c14.check_get_av(ctx)
+    # the composite (interp) curve: each filter wavelength paired with that filter's aperture
+    c13.check_variable(ctx)
+    from . import c12
+    c12.check_get_sed(ctx)           # 'draws that model's SED': the cube slice found by name on the full model axis
+
+
+def plot_rules(ctx):
     repo = ctx.repo
     plot = ctx.fn(repo.func('plot', 'plot'))
     pm = repo.module('plot')
@@ -71,14 +114,30 @@ def run(ctx):
                 bad.append(up(s))
     ctx.expect(not bad and n >= 4, 'PERM-8', 'per-fit arrays indexed by the fit loop variable', where(plot, lp), '%d subscripts of model_name/sc/av/model_fluxes, all at [%s]' % (n, i),
                'the SED, its scale and its reddening come from different fits: %s' % bad, 'row-index')
+    # locals assigned once in plot() stand for their definition (a value hoisted out of the loop or given a name is the same value)
+    single = {}
+    for t_, v_, st_ in stores(plot.node):
+        if isinstance(t_, ast.Name):
+            single[t_.id] = None if t_.id in single else v_
+    single = {k_: v_ for k_, v_ in single.items() if v_ is not None and k_ != i}
+
+    def xup(e_, depth=0):
+        class _Sub(ast.NodeTransformer):
+            def visit_Name(self, n_):
+                if isinstance(n_.ctx, ast.Load) and n_.id in single and depth < 3:
+                    return ast.parse(xup(single[n_.id], depth + 1), mode='eval').body
+                return n_
+        import copy as _copy
+        return up(_Sub().visit(_copy.deepcopy(e_)))
     sd = [c for c in calls(lp) if isinstance(c.func, ast.Attribute) and c.func.attr == 'scale_to_distance']
     sa = [c for c in calls(lp) if isinstance(c.func, ast.Attribute) and c.func.attr == 'scale_to_av']
     gs = [c for c in calls(lp) if isinstance(c.func, ast.Attribute) and c.func.attr == 'get_sed']
     rd = [c for c in calls(lp) if (chain(c.func) or '').endswith('SED.read')]
-    ok = len(sd) == 1 and len(sa) == 1 and len(sa[0].args) == 2 and up(sa[0].args[0]) == '%s.av[%s]' % (rec, i) and up(sa[0].args[1]) == '%s.meta.extinction_law.get_av' % rec
+    law_forms = ('%s.meta.extinction_law.get_av' % rec, '%s.meta.extinction_law.get_av' % (up(lp.iter.args[0]).split('.n_fits')[0] if False else rec))
+    ok = len(sd) == 1 and len(sa) == 1 and len(sa[0].args) == 2 and xup(sa[0].args[0]) == '%s.av[%s]' % (rec, i) and xup(sa[0].args[1]).replace('fin.meta', rec + '.meta') in law_forms
     ctx.expect(ok, 'PERM-8', 'reddening uses the fit\'s A_V and the stored law', where(plot, sa[0] if sa else lp), 's.scale_to_av(info.av[%s], info.meta.extinction_law.get_av)' % i,
                'scale_to_av called as %s' % [up(c) for c in sa], 'reddening-wiring')
-    ok = bool(gs) and all(up(c.args[0]) == '%s.model_name[%s]' % (rec, i) for c in gs) and bool(rd) and all(('%s.model_name[%s]' % (rec, i)) in up(c) for c in rd)
+    ok = bool(gs) and all(xup(c.args[0]) == '%s.model_name[%s]' % (rec, i) for c in gs) and bool(rd) and all(('%s.model_name[%s]' % (rec, i)) in xup(c) for c in rd)
     ctx.expect(ok, 'PERM-8', 'the SED fetched is the fitted model', where(plot, gs[0] if gs else lp), 'SED of info.model_name[%s] (file or cube)' % i, 'SED fetched as %s' % [up(c)[:80] for c in gs + rd], 'sed-fetch')
     # ---- ALG-16 distance argument
     I = Interp(repo)
@@ -231,15 +290,6 @@ def run(ctx):
     app = [c for c in calls(lp) if up(c.func) == '%s.append' % lines_name]
     ctx.expect(len(app) >= 2 and all('.wav' in up(c) and any(f_ in up(c) for f_ in (flux_names or {'flux'})) for c in app), 'CFG-13', 'each curve is (wavelength, interpolated flux) of the scaled SED', where(plot, app[0] if app else lp),
                '%d append sites: column_stack([s.wav, flux...])' % len(app), 'lines appended: %s' % [up(c)[:70] for c in app], 'line-content')
-    common.check_ownership(ctx, only=('plot',))
-    # the stored extinction law survives the fit file unchanged, and get_av is the normalised law (results passed as a file)
-    from . import c14, c13
-    c14.check_state(ctx)
-    c14.check_get_av(ctx)
-    # the composite (interp) curve: each filter wavelength paired with that filter's aperture
-    c13.check_variable(ctx)
-    from . import c12
-    c12.check_get_sed(ctx)           # 'draws that model's SED': the cube slice found by name on the full model axis
 
 
 PL = 'sedfitter/plot.py'
